@@ -152,6 +152,27 @@ class World:
         self.steps.append(['same_stamp_rewrite', r, data.decode('latin-1')])
         return True
 
+    def ext_rewrite(self, r, data, keep_stamp):
+        """general content change: new bytes, stamp kept or fresh (C13 factorial)"""
+        p = self.ap(r)
+        if self._kind(p) != 'f' or p == self.cache:
+            return False
+        if isinstance(data, str):
+            data = data.encode()
+        e = self.model.disk[p]
+        st = os.stat(p)
+        with open(p, 'wb') as f:
+            f.write(data)
+        if keep_stamp:
+            os.utime(p, ns=(st.st_atime_ns, st.st_mtime_ns))
+            self.model.disk[p] = ('f', data, e[2])
+        else:
+            ns = env.CLOCK.next()
+            os.utime(p, ns=(ns, ns))
+            self.model.disk[p] = ('f', data, ns)
+        self.steps.append(['rewrite', r, data.decode('latin-1'), bool(keep_stamp)])
+        return True
+
     def ext_delete_cache(self):
         if self._kind(self.cache) != 'f':
             return False
